@@ -115,4 +115,20 @@ structure MarObs where
 def mar (h : ObuHeader) (o : MarObs) : Bool :=
   !hdrWF h || (o.reparsed == .ok h && o.bytes.length == o.size && fieldsOK o.bytes h)
 
+/-! ### c13.obuwire, c13.encleb (further exports of codecs/av1/obu) -/
+
+/-- OBU.Marshal writes the low-overhead bitstream form: header, `obu_size` iff the header says so,
+    payload -/
+def obuwire (o : Obu) (bytes : Bytes) : Bool := !hdrWF o.hdr || bytes == o.wire
+
+/-- the big-endian bytes of a `uint`, without leading zero bytes (at least one byte) -/
+def beBytes (fuel : Nat) (x : Nat) : Bytes :=
+  match fuel with
+  | 0 => []
+  | f + 1 => if x < 256 then [x.toUInt8] else beBytes f (x / 256) ++ [(x % 256).toUInt8]
+
+/-- EncodeLEB128 packs exactly the bytes WriteToLeb128 produces (for values that fit eight bytes) -/
+def encleb (n : UInt64) (out : UInt64) : Bool :=
+  !decide (n.toNat < 2 ^ 56) || beBytes 9 out.toNat == writeLeb n.toNat
+
 end Rtp.Pred.C13
